@@ -431,7 +431,9 @@ pub fn random(args: &[String]) -> i32 {
 }
 
 /// `redo --in replay.ndjson --out trace.ndjson`: re-executes recorded steps on
-/// the current tree.  Input lines: `{"h": [...ops], "op": op, "names": [...]}`.
+/// the current tree.  Input lines: `{"names": [...], "h": [...ops], "op": op}`
+/// (history from the initial state) or `{"names": [...], "random": {seed, run,
+/// upto, vals, pos, maxdepth}}` (step `upto` of a random history).
 pub fn redo(args: &[String]) -> i32 {
     util::quiet_panics();
     let mut out = util::open_out(args);
@@ -442,6 +444,21 @@ pub fn redo(args: &[String]) -> i32 {
         }
         let v: J = serde_json::from_str(&line).expect("json");
         let names = strings(&v["names"]);
+        if let Some(r) = v.get("random") {
+            let vals = strings(&r["vals"]);
+            let pos = pos_vals(&["--pos".to_string(), r["pos"].as_str().unwrap_or("none").to_string()]);
+            let ops = alphabet(&names, &vals, &pos);
+            let upto = r["upto"].as_u64().unwrap() as usize;
+            let mut found = None;
+            random_run(r["seed"].as_u64().unwrap(), r["run"].as_u64().unwrap(), upto + 1,
+                       r["maxdepth"].as_u64().unwrap() as usize, &ops, &names, |i, st, _op, rec| {
+                if i == upto {
+                    found = Some(json!({"chain": false, "pre": observe(st, &names), "steps": [rec]}));
+                }
+            });
+            writeln!(out, "{}", found.expect("step")).unwrap();
+            continue;
+        }
         let mut st = Store::new();
         for op in v["h"].as_array().unwrap() {
             if !legal(&st, op) {
